@@ -269,7 +269,7 @@ class UpdaterModel:
         # state object on every path is a row set of the transition table (for its Self type); one that returns the result
         # of another such method on the same receiver and input delegates (the dyn entry point apply_chrony -> transition)
         for b in fb.bodies(common.DAEMON):
-            if b.defkind == 'Closure' or b.argc != 2 or not b.impl_trait:
+            if b.defkind == 'Closure' or b.argc != 2:
                 continue
             if not b.tystr(b.locals[2]['ty']).endswith('ChronyClockStatus'):
                 continue
